@@ -37,6 +37,9 @@ for f in sorted(glob.glob("/verif/seeded/*/meta.json")):
             good = rc["demo_exit_with_change"] == 1 and rc["demo_exit_without_change"] == 0 and rc["check_exit"] == 1
             verdict = ("caught" if rc["check_exit"] == 1 else "MISSED") + f" (re-confirmed at {rc['head']}" + ("" if good else f": demo {rc['demo_exit_with_change']}/{rc['demo_exit_without_change']}") + ")"
             sigs = rc["check_signatures"] or sigs
+    if m.get("direct") and not verdict.startswith("caught"):
+        verdict = "caught after widening (" + m["direct"]["how"] + ")"
+        sigs = m["direct"]["signatures"]
     rows.append((m["id"], ", ".join(os.path.basename(x) for x in files), title[:110], verdict, "; ".join(sigs[:2]) + (" ..." if len(sigs) > 2 else ""), ok))
 if "--md" in sys.argv:
     print("| Change | File | What (seeding agent's title) | Verdict of the property's check | First signatures |")
